@@ -27,9 +27,137 @@ def known_match(f, sc):
     return None
 
 
+def spec_diff(left, right):
+    """the set-based reading of the statement on two version states (path -> digest): (operation, text) pairs as the
+    command prints them"""
+    out = []
+    for p in sorted(set(left) & set(right)):
+        if left[p] != right[p]:
+            out.append(("M", p))
+    lonly, ronly = {}, {}
+    for p in sorted(set(left) - set(right)):
+        lonly.setdefault(left[p], []).append(p)
+    for p in sorted(set(right) - set(left)):
+        ronly.setdefault(right[p], []).append(p)
+    for d in sorted(set(lonly) | set(ronly)):
+        if d in lonly and d in ronly:
+            out.append(("R", "%s -> %s" % (", ".join(lonly[d]), ", ".join(ronly[d]))))
+        else:
+            out += [("D", p) for p in lonly.get(d, [])] + [("A", p) for p in ronly.get(d, [])]
+    return sorted(out)
+
+
+CLI_BUDGET = {"quick": dict(objects=4, seconds=40), "thorough": dict(objects=60, seconds=600)}
+
+
+def cli_phase(rep, tier, seed):
+    """`rocfl diff`, `show` and `log <file>` of the binary on rename-heavy histories (one-to-one, many-to-one, one-to-many,
+    swaps, copies, modifications), judged against the set-based specification computed from the inventory itself"""
+    import json, os, random, re, time
+    from vlib import phys, faultprop
+    rng = random.Random(seed + 21)
+    budget = CLI_BUDGET["thorough" if tier == "thorough" else "quick"]
+    t_end = time.time() + budget["seconds"]
+    fails = []
+    for i in range(budget["objects"]):
+        if time.time() > t_end:
+            break
+        sb = phys.Sandbox()
+        try:
+            contents = {"X": b"same content", "K": b"keep", "M1": b"first", "M2": b"second", "N": b"new"}
+            for k, b in contents.items():
+                open(os.path.join(sb.src, k), "wb").write(b)
+            sb.run(["init", "-l", "0004-hashed-n-tuple-storage-layout"])
+            oid = "obj"
+            sb.run(["new", oid])
+            for name, k in (("a.txt", "X"), ("b.txt", "X"), ("k.txt", "K"), ("m.txt", "M1"), ("d/x.txt", "X"), ("d/y.txt", "N")):
+                sb.run(["cp", oid, os.path.join(sb.src, k), "--", name])
+            sb.run(["commit", "-c", faultprop.TS, oid])
+            paths = ["a.txt", "b.txt", "k.txt", "m.txt", "d/x.txt", "d/y.txt"]
+            for v in range(rng.randint(2, 4)):
+                for _ in range(rng.randint(1, 4)):
+                    live = sorted(paths)
+                    op = rng.choice(["mv", "mv", "rm", "cpi", "modify", "many-to-one", "one-to-many"])
+                    if not live:
+                        break
+                    p = rng.choice(live)
+                    q = "r%d_%d.txt" % (v, rng.randint(0, 99))
+                    if op == "mv":
+                        if sb.run(["mv", "-i", oid, p, "--", q])["rc"] == 0:
+                            paths.remove(p); paths.append(q)
+                    elif op == "rm":
+                        if sb.run(["rm", oid, p])["rc"] == 0:
+                            paths.remove(p)
+                    elif op == "cpi":
+                        if sb.run(["cp", "-i", oid, p, "--", q])["rc"] == 0:
+                            paths.append(q)
+                    elif op == "modify":
+                        sb.run(["cp", oid, os.path.join(sb.src, rng.choice(["M2", "N", "K"])), "--", p])
+                    elif op == "many-to-one":
+                        same = [x for x in live if x in ("a.txt", "b.txt", "d/x.txt")]
+                        if len(same) >= 2:
+                            if sb.run(["mv", "-i", oid, same[0], "--", q])["rc"] == 0:
+                                paths.remove(same[0]); paths.append(q)
+                            if sb.run(["rm", oid, same[1]])["rc"] == 0:
+                                paths.remove(same[1])
+                    else:
+                        q2 = q.replace(".txt", "b.txt")
+                        if sb.run(["cp", "-i", oid, p, "--", q])["rc"] == 0:
+                            paths.append(q)
+                        if sb.run(["mv", "-i", oid, p, "--", q2])["rc"] == 0:
+                            paths.remove(p); paths.append(q2)
+                sb.run(["commit", "-c", faultprop.TS, oid])
+            oroot = faultprop.object_root(sb, oid)
+            inv = json.load(open(os.path.join(sb.root, oroot, "inventory.json")))
+            names = sorted(inv["versions"], key=lambda x: int(x[1:]))
+            states = {n: {p: d for d, ps in inv["versions"][n]["state"].items() for p in ps} for n in names}
+
+            def parse(text):
+                out = []
+                for l in text.split("\n"):
+                    m = re.match(r"^(Added|Modified|Deleted|Renamed)\s+(.*?)\s*$", l)
+                    if m:
+                        out.append((m.group(1)[0], m.group(2)))
+                return sorted(out)
+            pairs = [(a, b) for a in names for b in names if a != b]
+            for a, b in (pairs if tier == "thorough" else rng.sample(pairs, min(len(pairs), 6))):
+                r = sb.run(["diff", oid, a, b])
+                rep.evaluations += 1
+                rep.classes.add("cli-diff|rc%d" % r["rc"])
+                want = spec_diff(states[a], states[b])
+                got = parse(r["out"].decode("utf-8", "replace"))
+                if r["rc"] != 0 or got != want:
+                    fails.append("`rocfl diff obj %s %s` (exit %d) prints %r, the states differ by %r" % (a, b, r["rc"], got, want))
+            for k, n in enumerate(names):
+                r = sb.run(["show", "-m", oid, n])
+                want = spec_diff(states[names[k - 1]] if k else {}, states[n])
+                got = parse(r["out"].decode("utf-8", "replace"))
+                rep.evaluations += 1
+                if r["rc"] != 0 or got != want:
+                    fails.append("`rocfl show -m obj %s` (exit %d) prints %r, the version differs from the one before by %r" % (n, r["rc"], got, want))
+            for p in sorted({q for st in states.values() for q in st})[:6]:
+                r = sb.run(["log", "-c", "-t", oid, p])
+                got = [l.split("\t")[0].strip() for l in r["out"].decode("utf-8", "replace").split("\n") if l.strip()]
+                want = [n for k, n in enumerate(names) if states[n].get(p) != (states[names[k - 1]].get(p) if k else None)]
+                rep.evaluations += 1
+                if got != want:
+                    fails.append("`rocfl log obj %s` lists %r, its content changes in %r" % (p, got, want))
+        finally:
+            sb.close()
+    seen = set()
+    for f in fails:
+        key = re.sub(r"v\d+|r\d+_\d+b?", "#", f)[:50]
+        if key in seen or len(seen) >= 3:
+            continue
+        seen.add(key)
+        rep.violation(dict(kind="oracle-failure", oracle="true-history (command line)", what=f))
+    rep.extra["cli_history_failures"] = len(fails)
+
+
 def run(rep, tier, seed, proof_broken=False):
     import vlib.props.C18 as me
     histprop.run(rep, me, tier, seed, proof_broken)
+    cli_phase(rep, tier, seed)
 
 
 def replay(rep, payload):
